@@ -5,6 +5,8 @@ use crate::{ItemId, Node, NodeCodec, Result};
 
 pub struct ItemIter<'t, D: Distance> {
     pub(crate) inner: heed::RoPrefix<'t, KeyCodec, NodeCodec<D>>,
+    /// The number of dimensions of the vectors, the stored vectors may be padded.
+    pub(crate) dimensions: usize,
 }
 
 impl<D: Distance> Iterator for ItemIter<'_, D> {
@@ -15,7 +17,9 @@ impl<D: Distance> Iterator for ItemIter<'_, D> {
         match self.inner.next() {
             Some(Ok((key, node))) => match node {
                 Node::Leaf(Leaf { header: _, vector }) => {
-                    Some(Ok((key.node.item, vector.to_vec())))
+                    let mut vector = vector.to_vec();
+                    vector.truncate(self.dimensions);
+                    Some(Ok((key.node.item, vector)))
                 }
                 Node::Descendants(_) | Node::SplitPlaneNormal(_) => None,
             },
